@@ -74,6 +74,14 @@ def batches(npool, maxlen):
 _TIER = ["quick"]
 
 
+def _own_rng(x):
+    """the global RNG state before a call is a function of the call's input: a tree that draws random numbers in evaluation
+    mode then gives different draws for a row alone and inside a batch, reproducibly"""
+    import zlib
+
+    torch.manual_seed(zlib.crc32(x.detach().contiguous().numpy().tobytes()))
+
+
 def run_transform_case(sname, cfg, pname, seed, tier, res=None, only=None):
     vio = []
     _TIER[0] = tier
@@ -94,6 +102,7 @@ def run_transform_case(sname, cfg, pname, seed, tier, res=None, only=None):
     sig = dev_signature(s, cfg)
 
     def call(fn, x, c):
+        _own_rng(x)
         with torch.no_grad():
             return fn(x, c) if c is not None else fn(x)
 
@@ -202,6 +211,7 @@ def run_dist_case(dname, cfg, pname, seed, tier, res=None, only=None):
         for i in range(npool):
             try:
                 with torch.no_grad():
+                    _own_rng(X[i : i + 1])
                     refs.append(fn(X[i : i + 1], None if CT is None else CT[i : i + 1])[0].clone())
             except Exception:
                 ok = False
@@ -222,6 +232,7 @@ def run_dist_case(dname, cfg, pname, seed, tier, res=None, only=None):
                     res["nontrivial"] += 1
             try:
                 with torch.no_grad():
+                    _own_rng(X[idx])
                     out = fn(X[idx], None if CT is None else CT[idx])
             except Exception as e:
                 vio.append({"key": "%s|%s|%s|batch raises %s" % (dname, sig, name, type(e).__name__), "case": {"kind": "dist", "subject": dname, "cfg": cfg, "pattern": pname, "seed": seed, "batch": list(b), "direction": name, "tier": _TIER[0]},
